@@ -129,6 +129,7 @@ import tatsu
 from tatsu.util import safeeval
 from tatsu.contexts import engine
 from tatsu.exceptions import FailedParse, FailedSemantics
+from tatsu.semantics import ModelBuilderSemantics, ASTSemantics
 
 SB = safeeval.safe_builtins()
 def _f(x):
@@ -378,22 +379,22 @@ def find_nodes(model, cls):
     walk(model)
     return found
 
-class AstProxy:
-    def __init__(self, trace):
-        self.trace = trace
-    def literal_eval(self, s):
+REAL_LITERAL_EVAL = ast.literal_eval
+def literal_recorder(trace):
+    # installed as ast.literal_eval for the time of a parse: the engine reaches literal_eval through the ast module
+    # (under whatever name it imported it, directly or through a helper of its own)
+    def literal_eval(s, *a, **k):
         try:
-            v = ast.literal_eval(s)
+            v = REAL_LITERAL_EVAL(s, *a, **k)
         except (ValueError, SyntaxError):
-            self.trace.append(['lit', s, None])
+            trace.append(['lit', s, None])
             raise
         except BaseException as e:
-            self.trace.append(['lit', s, 'raises:' + type(e).__name__])
+            trace.append(['lit', s, 'raises:' + type(e).__name__])
             raise
-        self.trace.append(['lit', s, short(v) if not isinstance(v, str) else ['str', v]])
+        trace.append(['lit', s, short(v) if not isinstance(v, str) else ['str', v]])
         return v
-    def __getattr__(self, name):
-        return getattr(ast, name)
+    return literal_eval
 
 def run_parse(job):
     """through the parser.  via='text': the literal is written in the grammar; via='patch': the literal of the
@@ -403,7 +404,7 @@ def run_parse(job):
     literal = job['literal']
     res = {}
     trace = []
-    saved = (engine.trim, engine.stdlib_ast, engine.is_eval_safe, engine.safe_eval)
+    saved = (engine.trim, None, engine.is_eval_safe, engine.safe_eval)
     ntrim = [0]
     def trim(s, *a, **k):
         ntrim[0] += 1
@@ -486,7 +487,8 @@ def run_parse(job):
         res['outcome'] = 'grammar-rejected:' + type(e).__name__
         return res
     EVENTS = []
-    engine.trim, engine.stdlib_ast, engine.is_eval_safe, engine.safe_eval = trim, AstProxy(trace), is_eval_safe, safe_eval
+    engine.trim, engine.is_eval_safe, engine.safe_eval = trim, is_eval_safe, safe_eval
+    ast.literal_eval = literal_recorder(trace)
     signal.alarm(20)
     try:
         # an alert is observable only in the parse information of the result: parseinfo=True, read parseinfo.alerts
@@ -514,7 +516,8 @@ def run_parse(job):
         res['detail'] = str(e)[:160]
     finally:
         signal.alarm(0)
-        engine.trim, engine.stdlib_ast, engine.is_eval_safe, engine.safe_eval = saved
+        engine.trim, engine.is_eval_safe, engine.safe_eval = saved[0], saved[2], saved[3]
+        ast.literal_eval = REAL_LITERAL_EVAL
         res['events'] = EVENTS
         EVENTS = None
     res['trace'] = trace
@@ -535,6 +538,23 @@ class SeqSemantics:
         self.d = dict(self.fns)
     def safe_context(self):
         return self.d
+
+def scribble(v, depth=0):
+    # what a caller may do with the result of a parse: edit the lists / dicts / sets it finds in it
+    if depth > 5:
+        return
+    if isinstance(v, Mapping):
+        for x in list(v.values()):
+            scribble(x, depth + 1)
+            if type(x) is list:
+                x.append('#edited-by-the-caller')
+            elif type(x) is dict:
+                x['#edited-by-the-caller'] = 1
+            elif type(x) is set:
+                x.add('#edited-by-the-caller')
+    elif isinstance(v, (list, tuple)):
+        for x in v:
+            scribble(x, depth + 1)
 
 def run_seq(job):
     """a SEQUENCE of compiles / parses in this one interpreter (state may be carried from step to step).  Per step:
@@ -613,28 +633,48 @@ def run_seq(job):
             out.append(res)
             try:
                 if st['gid'] not in models:
-                    models[st['gid']] = tatsu.compile(st['g'], name=st['name'])
+                    if st.get('asmodel'):
+                        # the model gets a model-builder semantics of its own, which lives as long as the model
+                        models[st['gid']] = tatsu.compile(st['g'], name=st['name'], asmodel=True)
+                    else:
+                        models[st['gid']] = tatsu.compile(st['g'], name=st['name'])
                 model = models[st['gid']]
             except BaseException as e:
                 res['outcome'] = 'grammar-rejected:' + type(e).__name__
                 res['detail'] = str(e)[:200]
                 continue
             sem = None
+            pkw = {}
             if st.get('sem') is not None:
                 sid = st['sem']['sid']
-                if sid not in sems:
-                    sems[sid] = SeqSemantics(st['sem']['names'])
-                sem = sems[sid]
+                kind = st['sem'].get('kind', 'user')
+                if kind == 'asmodel-parse':
+                    pkw = {'asmodel': True}         # the engine makes a model-builder semantics for this one parse
+                elif kind == 'mbs-fresh':
+                    pkw = {'semantics': ModelBuilderSemantics()}
+                else:
+                    if sid not in sems:
+                        if kind == 'user':
+                            sems[sid] = SeqSemantics(st['sem']['names'])
+                        elif kind == 'mbs':
+                            sems[sid] = ModelBuilderSemantics()
+                        elif kind == 'mbs-ctors':
+                            # user constructors (plain functions) registered with the builder under their __name__
+                            sems[sid] = ModelBuilderSemantics(constructors=[_semfn(n) for n in st['sem']['ctors']])
+                        elif kind == 'astsem':
+                            sems[sid] = ASTSemantics()
+                        else:
+                            raise RuntimeError('unknown semantics kind ' + kind)
+                    sem = sems[sid]
+                    pkw = {'semantics': sem}
             calls[0] = res['calls'] = []
             alerts[0] = res['alerts'] = []
             EVENTS = []
             signal.alarm(20)
             try:
-                if sem is None:
-                    model.parse(st['text'])
-                else:
-                    model.parse(st['text'], semantics=sem)
+                parsed = model.parse(st['text'], **pkw)
                 res['outcome'] = 'value'
+                scribble(parsed)
             except Hang:
                 res['outcome'] = 'hang'
             except FailedParse as e:
@@ -658,7 +698,7 @@ def run_seq(job):
                   'replaced': sorted(k for k in PR if k in now and now[k] is not PR[k])}
             if any(sb.values()):
                 res['sb'] = sb
-            bad = sorted(s for s, o in sems.items()
+            bad = sorted(s for s, o in sems.items() if isinstance(o, SeqSemantics)
                          if set(o.d) != set(o.fns) or any(o.d[n] is not o.fns[n] for n in o.fns))
             if bad:
                 res['sem_mutated'] = {str(s): sorted(set(sems[s].d) ^ set(sems[s].fns)) or
@@ -1624,15 +1664,100 @@ SEQ_WALRUS = ['zq%d' % i for i in range(6)]
 SEQ_CNAMES = ['c%d' % i for i in range(1, 17)]
 SEQ_SEMS = [{'sid': 0, 'names': ['twice', 'tag']}, {'sid': 1, 'names': ['mark', 'len']}]
 SEQ_CALLS = {'len': len, 'max': max, 'min': min, 'sorted': sorted}
+# typed rules (`number::int = /\d+/ ;`) and the semantics TatSu ships: a model-builder semantics resolves the type name of a
+# rule to a constructor - a builtin (also the ones the sandbox withholds: every type, dir, ...), a class it synthesizes, a user
+# constructor registered with it - and keeps what it resolved for as long as the semantics object lives (one parse for
+# parse(asmodel=True), the life of the model for compile(asmodel=True), the program for an object the caller passes around).
+# None of these names is a name of the current AST or a pure builtin: a constant that mentions one stays text.
+SEQ_TYPE_BUILTINS = ['int', 'float', 'str', 'bool', 'dir', 'tuple', 'frozenset', 'complex', 'enumerate', 'reversed', 'zip', 'slice']
+SEQ_TYPE_SYNTH = ['Item', 'Tok', 'Val', 'Word', 'tok', 'item', 'node']
+SEQ_TYPE_CTORS = ['mk', 'Leaf', 'tag']
+SEQ_TYPE_KEYS = ['num', 'cnt', 'kind']
+SEQ_TSEMS = [{'sid': 2, 'kind': 'mbs', 'names': []},
+             {'sid': 3, 'kind': 'mbs-ctors', 'names': [], 'ctors': SEQ_TYPE_SYNTH + SEQ_TYPE_CTORS},
+             {'sid': 4, 'kind': 'asmodel-parse', 'names': []},
+             {'sid': 5, 'kind': 'mbs-fresh', 'names': []},
+             {'sid': 6, 'kind': 'astsem', 'names': []}]
+SEQ_SEM_CHOICES = [None, None, None, SEQ_SEMS[0], SEQ_SEMS[0], SEQ_SEMS[1], SEQ_SEMS[1], SEQ_TSEMS[0], SEQ_TSEMS[0], SEQ_TSEMS[0], SEQ_TSEMS[1], SEQ_TSEMS[1],
+                   SEQ_TSEMS[2], SEQ_TSEMS[3], SEQ_TSEMS[4]]
 NOEXP = object()
+# values that depend on nothing but the current AST: (i) keys bound by literals that are EQUAL but not the same value (1 == True
+# == 1.0, 0 == False == 0.0 == -0.0, tuples / lists of them) under the same key name, read by the same constant text in other
+# rules / parses / grammars of the program; (ii) keys bound by a mutable literal (`[]`, `{}`), filled by a method call of a later
+# constant of the rule (accepted: a plain method of a name of the current AST), read back; every parse starts from the literal.
+SEQ_TWINS = [['1', 'True', '1.0'], ['0', 'False', '0.0', '-0.0'], ['2', '2.0'], ['(1, 0)', '(True, False)', '(1.0, 0.0)'],
+             ['[1]', '[True]', '[1.0]']]
+SEQ_TWIN_KEYS = ['flag', 'n']
+SEQ_TWIN_READ = [('<{K}>', lambda v: f'<{v}>'), ('repr(K)', lambda v: repr(v)), ('{K!r}~', lambda v: f'{v!r}~'),
+                 ('[K, K]', lambda v: [v, v]), ('{K}', lambda v: f'{v}'), ('format(K)', lambda v: format(v))]
+SEQ_MUTABLE = [('[]', 'list'), ('[0]', 'list'), ('{}', 'dict'), ("{'n': 0}", 'dict')]
+SEQ_MUT_KEYS = ['acc', 'bag']
+SEQ_MUTATE = {'list': [('K.append(W)', lambda a, w: a.append(w)), ('K.extend([W, W])', lambda a, w: a.extend([w, w])),
+                       ('K.insert(0, W)', lambda a, w: a.insert(0, w))],
+              'dict': [('K.setdefault(W, 1)', lambda a, w: a.setdefault(w, 1))]}
+SEQ_MUT_READ = [('{K}', lambda a: f'{a}'), ('len(K)', lambda a: len(a)), ('{K!r}~', lambda a: f'{a!r}~')]
+
+
+def seq_value_key(v) -> str:
+    return json.dumps(canon([type(v).__name__, repr(v)[:200]]))
+
+
+def seq_literal_rules(rng, name: str, vocab: list, pristine: set) -> list:
+    """rules whose keys are bound by literal constants; their constants are named d1.. (the same in every rule and grammar,
+    so that the same text meets the same key set again).  Twins: 2-3 sibling rules that bind the SAME key to equal literals of
+    different types and read it with the same constants"""
+    out = []
+
+    def new(nm):
+        out.append({'name': nm, 'keys': [], 'late': None, 'call': None, 'consts': [], 'late_consts': [], 'typed': [], 'lit': True})
+        return out[-1], iter('d%d' % i for i in range(1, 9))
+
+    def con(cls, lit, fn, name=None, **kw):
+        r['consts'].append(dict({'cls': cls, 'lit': lit, 'fn': fn, 'alert': False, 'name': name or next(dn), 'fname': None}, **kw))
+    if rng.random() < 0.55:
+        k = rng.choice(SEQ_TWIN_KEYS)
+        cls = rng.choice(SEQ_TWINS)
+        reads = [t for t in SEQ_TWIN_READ if t[0] != 'format(K)' or 'format' in pristine]
+        reads = rng.sample(reads, rng.choice([1, 2, 2]))
+        for j, lit in enumerate(rng.sample(cls, min(len(cls), rng.choice([2, 3])))):
+            r, dn = new(name + 'abc'[j])
+            con('twin-key', lit, (lambda T, sem, lit=lit: ast.literal_eval(lit)), name=k,
+                value_key=seq_value_key(ast.literal_eval(lit)))
+            for text, f in reads:
+                con('twin', text.replace('K', k), (lambda T, sem, f=f, lit=lit: f(ast.literal_eval(lit))))
+    else:
+        r, dn = new(name)
+        k = rng.choice(SEQ_MUT_KEYS)
+        w = rng.choice(vocab)
+        r['keys'] = [w]
+        lit, kind = rng.choice(SEQ_MUTABLE)
+
+        def start(T, sem):
+            T['#' + k] = ast.literal_eval(lit)
+            return ast.literal_eval(lit)
+        con('mut-key', lit, start, name=k, value_key=seq_value_key(ast.literal_eval(lit)))
+        for _ in range(rng.choice([1, 1, 2])):
+            text, f = rng.choice(SEQ_MUTATE[kind])
+            con('mut', text.replace('K', k).replace('W', w), (lambda T, sem, f=f: f(T['#' + k], T[w])))
+        # (a text with braces in it would be read as a template once more: only the list is shown inside a frame)
+        reads = [t for t in SEQ_MUT_READ if (t[0] != 'len(K)' or ('len' in pristine and w != 'len'))
+                 and (t[0] == '{K}' or kind == 'list')]
+        for text, f in rng.sample(reads, min(len(reads), rng.choice([1, 2]))):
+            con('mut-read', text.replace('K', k),
+                (lambda T, sem, f=f, text=text: NOEXP if ('len' in sem and 'len' in text) else f(T['#' + k])))
+    for r in out:
+        r['ncon'] = (len(r['consts']), 0)
+        r['cnames'] = [c['name'] for c in r['consts']]
+        r['declared'] = set(r['keys']) | set(r['cnames'])
+    return out
 
 
 class Drop(Exception):
     pass
 
 
-def seq_word(rng) -> str:
-    if rng.random() < 0.2:
+def seq_word(rng, digits=False) -> str:
+    if digits or rng.random() < 0.2:
         return str(rng.randint(0, 999))
     return rng.choice('123456789') + ''.join(rng.choice('abcdefgh') for _ in range(rng.randint(1, 4)))
 
@@ -1667,7 +1792,7 @@ def seq_expected(v):
     return ['str', v] if isinstance(v, str) else canon([type(v).__name__, repr(v)[:200]])
 
 
-def seq_template(rng, own, declared, pristine, foreign, semforeign, walrus, randnames):
+def seq_template(rng, own, declared, pristine, foreign, semforeign, walrus, randnames, typenames=()):
     """-> (class, literal, fn(T, sem) -> value | NOEXP).  T: texts of the rule's keys; sem: names of the attached semantics"""
     o = rng.choice(own)
     o2 = rng.choice(own)
@@ -1679,6 +1804,8 @@ def seq_template(rng, own, declared, pristine, foreign, semforeign, walrus, rand
         kinds.append('walrus')
     if semforeign:
         kinds.append('semforeign')
+    if typenames:
+        kinds += ['typename', 'typename']
     kind = rng.choice(kinds)
 
     def callb(b, x, sem):
@@ -1695,9 +1822,11 @@ def seq_template(rng, own, declared, pristine, foreign, semforeign, walrus, rand
     if kind == 'fcall':
         b = rng.choice(bi)
         return kind, '{%s(%s)}{%s}' % (b, o, o2), (lambda T, sem: str(callb(b, T[o], sem)) + T[o2]), None
-    if kind == 'foreign':
-        f = rng.choice(rng.choice(foreign))
-        lit = rng.choice(['{F}', 'F', '{O}{F}', 'len(F)', 'F.upper()', '{F!r}', '{F}~{O}', 'max(O, F)', ' {F}', '{O}: {F}', 'F(O)',
+    if kind in ('foreign', 'typename'):
+        # 'typename': the name of the type of a rule of this grammar (`r::int`), used the way a grammar author would
+        f = rng.choice(typenames) if kind == 'typename' else rng.choice(rng.choice(foreign))
+        kind = 'foreign'
+        lit = rng.choice(['F(O)', '{F(O)}', 'F(O) + 1', '{O}: {F(O)}', 'len(F(O))', 'F()'] if f in typenames and rng.random() < 0.6 else ['{F}', 'F', '{O}{F}', 'len(F)', 'F.upper()', '{F!r}', '{F}~{O}', 'max(O, F)', ' {F}', '{O}: {F}', 'F(O)',
                           '{F(O)}', '[F]', '{len(F)}', 'O + F', '{O.upper()}{F}']).replace('F', f).replace('O', o)
         return kind, lit, (lambda T, sem: Rejected(lit.strip())), f
     if kind == 'semcall':
@@ -1736,29 +1865,58 @@ def seq_grammar(rng, gid: int, pristine: set, vocab: list) -> dict:
         for k in rng.sample(pool, min(len(pool), rng.randint(1, 3))):
             if k not in keys:
                 keys.append(k)
-        rules.append({'name': 'r%d' % (i + 1), 'keys': keys, 'late': None, 'call': None, 'consts': [], 'late_consts': []})
+        rules.append({'name': 'r%d' % (i + 1), 'keys': keys, 'late': None, 'call': None, 'consts': [], 'late_consts': [],
+                      'typed': []})
+    # leaf rules with a type: `t1::int = /\d+/ ;`, `t2::Item::Word = /\d+/ ;`
+    typepool = [t for t in SEQ_TYPE_BUILTINS if t not in pristine] + SEQ_TYPE_SYNTH + SEQ_TYPE_CTORS
+    trules = []
+    if rng.random() < 0.7:
+        for j in range(rng.choice([1, 1, 2])):
+            tn = rng.choice(typepool if rng.random() < 0.5 else typepool[:len(typepool) - len(SEQ_TYPE_SYNTH) - len(SEQ_TYPE_CTORS)])
+            spec = tn
+            if tn in SEQ_TYPE_SYNTH[:4] and rng.random() < 0.25:
+                spec = tn + '::' + rng.choice([b for b in SEQ_TYPE_SYNTH[:4] if b != tn])
+            trules.append({'name': 't%d' % (j + 1), 'spec': spec, 'types': spec.split('::')})
+        for r in rules:
+            for _ in range(rng.choice([0, 1, 1, 2])):
+                # the value of the typed rule is a key of this rule's AST, or is dropped (the rule is reduced all the same)
+                r['typed'].append({'key': rng.choice(SEQ_TYPE_KEYS + [None]), 'rule': rng.choice(trules)['name']})
     top = [0]
     for i in range(1, nrules):
         if rng.random() < 0.4:
             rules[i - 1]['call'] = i
         else:
             top.append(i)
+    if rng.random() < 0.65:
+        for j in range(rng.choice([1, 1, 2])):
+            for lr in seq_literal_rules(rng, 'f%d' % (j + 1), vocab, pristine):
+                top.append(len(rules))
+                rules.append(lr)
     for r in rules:
+        if r.get('lit'):
+            continue
         if rng.random() < 0.35:
             cand = [k for k in vocab if k not in r['keys']]
             r['late'] = rng.choice(cand)
         r['ncon'] = (rng.randint(1, 3), rng.randint(1, 2) if r['late'] else 0)
         r['cnames'] = [next(cn) for _ in range(sum(r['ncon']))]
         r['declared'] = set(r['keys']) | set(r['cnames']) | ({r['late']} if r['late'] else set()) | \
-            ({'i'} if r['call'] is not None else set())
+            ({'i'} if r['call'] is not None else set()) | {t['key'] for t in r['typed'] if t['key']}
     semnames = [n for d in SEQ_SEMS for n in d['names']]
-    everything = set(vocab) | set(bkeys) | set(SEQ_OUTSIDE) | set(SEQ_WALRUS) | set(SEQ_CNAMES) | set(semnames) | set(pristine) | {'i'}
+    everything = set(vocab) | set(bkeys) | set(SEQ_OUTSIDE) | set(SEQ_WALRUS) | set(SEQ_CNAMES) | set(semnames) | set(pristine) | {'i'} \
+        | set(typepool) | set(SEQ_TYPE_KEYS)
+    mytypes = [t for tr in trules for t in tr['types']]
+    everything |= set(SEQ_TWIN_KEYS) | set(SEQ_MUT_KEYS) | {'d%d' % i for i in range(1, 9)}
     for r in rules:
+        if r.get('lit'):
+            continue
         sib = [n for q in rules if q is not r for n in sorted(q['declared'])]
         ok = lambda names: [n for n in dict.fromkeys(names)
                             if n not in r['declared'] and n not in pristine and n not in semnames]
         # mostly names that other rules / other parses of the program bind; then names bound nowhere, names of constants, walrus
-        cats = [c for c in (ok(sib + vocab), ok(sib + vocab), ok(sib + vocab), ok(SEQ_OUTSIDE), ok(SEQ_CNAMES), ok(SEQ_WALRUS)) if c]
+        # ... and type names: of the typed rules of this grammar, of the typed rules of other grammars of the program
+        cats = [c for c in (ok(sib + vocab), ok(sib + vocab), ok(sib + vocab), ok(SEQ_OUTSIDE), ok(SEQ_CNAMES), ok(SEQ_WALRUS),
+                            ok(mytypes), ok(mytypes), ok(mytypes), ok(typepool)) if c]
         foreign = [n for c in cats for n in c]
         semforeign = [n for n in semnames if n not in r['declared'] and n not in pristine]
         cnames = iter(r['cnames'])
@@ -1766,7 +1924,8 @@ def seq_grammar(rng, gid: int, pristine: set, vocab: list) -> dict:
             own = r['keys'] + ([r['late']] if phase else [])
             for _ in range(n):
                 cls, lit, fn, fname = seq_template(rng, own, r['declared'], pristine, cats, semforeign, SEQ_WALRUS,
-                                                   own + foreign[:6] + ['len', 'max', 'sorted', 'next', 'repr', 'open', 'type'])
+                                                   own + foreign[:6] + ['len', 'max', 'sorted', 'next', 'repr', 'open', 'type'],
+                                                   typenames=ok(mytypes))
                 alert = rng.random() < 0.2
                 (r['late_consts'] if phase else r['consts']).append(
                     {'cls': cls, 'lit': lit, 'fn': fn, 'alert': alert, 'name': next(cnames), 'fname': fname})
@@ -1776,6 +1935,7 @@ def seq_grammar(rng, gid: int, pristine: set, vocab: list) -> dict:
         return '^`%s`' % c['lit'] if c['alert'] else '%s:`%s`' % (c['name'], c['lit'])
     for r in rules:
         els = ["',' %s:/\\w+/" % k for k in r['keys']]
+        els += ["',' " + (t['key'] + ':' if t['key'] else '') + t['rule'] for t in r['typed']]
         if r['call'] is not None:
             els.append('i:' + rules[r['call']]['name'])
         els += [con(c) for c in r['consts']]
@@ -1783,12 +1943,15 @@ def seq_grammar(rng, gid: int, pristine: set, vocab: list) -> dict:
             els.append("',' %s:/\\w+/" % r['late'])
             els += [con(c) for c in r['late_consts']]
         lines.append(r['name'] + ' = ' + ' '.join(els) + ' ;')
+    for tr in trules:
+        lines.append('%s::%s = /\\d+/ ;' % (tr['name'], tr['spec']))
     # execution order of the keys (input words) and of the constants
     korder, corder = [], []
 
     def walk(i):
         r = rules[i]
         korder.extend((i, k) for k in r['keys'])
+        korder.extend((i, '#' + str(t['key'])) for t in r['typed'])       # '#': an input word for a typed rule (digits)
         if r['call'] is not None:
             walk(r['call'])
         corder.extend((i, c) for c in r['consts'])
@@ -1798,7 +1961,7 @@ def seq_grammar(rng, gid: int, pristine: set, vocab: list) -> dict:
     for i in top:
         walk(i)
     return {'gid': gid, 'name': 'C17s%d' % gid, 'g': '\n'.join(lines), 'rules': rules, 'korder': korder, 'corder': corder,
-            'taken': everything}
+            'taken': everything, 'types': mytypes, 'asmodel': bool(trules) and rng.random() < 0.3}
 
 
 def seq_program(rng, nsteps: int, pristine: set) -> list[dict]:
@@ -1818,14 +1981,16 @@ def seq_program(rng, nsteps: int, pristine: set) -> list[dict]:
             g = seq_grammar(rng, len(grammars), pristine, vocab)
             grammars.append(g)
             how = 'new-grammar'
-        words = [seq_word(rng) for _ in g['korder']]
+        words = [seq_word(rng, digits=k.startswith('#')) for _, k in g['korder']]
         T: dict = {}
         for (ri, k), w in zip(g['korder'], words):
             T.setdefault(ri, {})[k] = w
-        sem = rng.choice([None, None, None, SEQ_SEMS[0], SEQ_SEMS[1]])
+        sem = rng.choice(SEQ_SEM_CHOICES)
         semset = set(sem['names']) if sem else set()
         expected = []
         opaque: set = set()
+        for ri, _ in g['corder']:
+            T.setdefault(ri, {})
         for ri, c in g['corder']:
             if c['cls'] == 'random':
                 opaque.add(ri)      # its value (any object, e.g. a function) becomes an entry of the rule's AST
@@ -1843,16 +2008,18 @@ def seq_program(rng, nsteps: int, pristine: set) -> list[dict]:
             except Drop:
                 expected.append(None)
         steps.append({'id': sid, 'gid': g['gid'], 'name': g['name'], 'g': g['g'], 'text': ''.join(',' + w for w in words),
-                      'sem': sem, 'how': how, 'grammar': g, 'expected': expected})
+                      'sem': sem, 'how': how, 'grammar': g, 'expected': expected, 'asmodel': g['asmodel']})
     return steps
 
 
 def seq_wire(steps):
-    return [{k: s[k] for k in ('id', 'gid', 'name', 'g', 'text', 'sem')} for s in steps]
+    return [{k: s[k] for k in ('id', 'gid', 'name', 'g', 'text', 'sem', 'asmodel')} for s in steps]
 
 
 def walrus_targets(lit: str) -> set:
     out = set()
+    if not isinstance(lit, str):
+        return out
     for src in (lit.strip(), 'f' + repr(lit.strip())):
         try:
             out |= {n.target.id for n in ast.walk(ast.parse(src, mode='eval')) if isinstance(n, ast.NamedExpr)}
@@ -1885,11 +2052,15 @@ def seq_problems(step: dict, rec: dict, semnames_all: set, vocab_all: set) -> li
     for ri, c in g['corder']:
         declared_of.setdefault(c['lit'], set()).update(g['rules'][ri]['declared'])
     alldecl = set().union(*(r['declared'] for r in g['rules']))
+    declared_ns: dict = {}      # literals that the grammar compiler has already evaluated reach constant() as values
+    for ri, c in g['corder']:
+        if c.get('value_key'):
+            declared_ns.setdefault(c['value_key'], set()).update(g['rules'][ri]['declared'])
     for n, call in enumerate(calls):
         lit = call['lit']
         if not isinstance(lit, str) and has_random:
             continue        # `1`, `None`: the grammar compiler already evaluated the text of the constant
-        decl = declared_of.get(lit) if isinstance(lit, str) else None
+        decl = declared_of.get(lit) if isinstance(lit, str) else declared_ns.get(json.dumps(canon(lit)))
         if decl is None and has_random:
             # the text of a random expression with quotes is not the literal the grammar compiler stores
             decl = set().union(*(g['rules'][ri]['declared'] for ri, c in g['corder'] if c['cls'] == 'random'))
@@ -1917,6 +2088,8 @@ def seq_problems(step: dict, rec: dict, semnames_all: set, vocab_all: set) -> li
                         classes.add('walrus')
                     elif name in semnames_all:
                         classes.add('semantics')
+                    elif name in SEQ_TYPE_BUILTINS + SEQ_TYPE_SYNTH + SEQ_TYPE_CTORS:
+                        classes.add('rule-type')
                     elif name in vocab_all:
                         classes.add('other-parse')
                     else:
@@ -1965,6 +2138,7 @@ def run_sequences(chk: Check, info: dict, scratch: Path):
     n_order = 0
     n_ctx = 0
     n_foreign_live = 0
+    n_type_live = 0
     shrunk: dict = {}       # signature of a problem -> signature of its minimal reproduction
     for pi in range(nprog):
         steps = seq_program(rng, nsteps, pristine)
@@ -1980,6 +2154,7 @@ def run_sequences(chk: Check, info: dict, scratch: Path):
         by1 = {r['id']: r for r in run1['steps']}
         by2 = {r['id']: r for r in run2['steps']}
         bound_so_far: set = set()
+        types_so_far: set = set()
         for order, by, tag in ((steps, by1, 'forward'), (order2, by2, 'shuffled')):
             for pos, st in enumerate(order):
                 rec = by[st['id']]
@@ -1988,6 +2163,11 @@ def run_sequences(chk: Check, info: dict, scratch: Path):
                     chk.count('S4.steps')
                     chk.count('S4.step.' + st['how'])
                     chk.count('S4.sem.' + ('none' if not st['sem'] else str(st['sem']['sid'])))
+                    skind = st['sem'].get('kind', 'user') if st['sem'] else ('compile-asmodel' if st['asmodel'] else 'none')
+                    chk.count('S4.semkind.' + skind)
+                    builder = skind in ('mbs', 'mbs-ctors', 'mbs-fresh', 'asmodel-parse', 'compile-asmodel')
+                    if st['grammar']['types']:
+                        chk.count('S4.parses_of_grammars_with_typed_rules')
                     chk.count('S4.constants', len(rec.get('calls') or []))
                     n_ctx += sum(1 for c in rec.get('calls') or [] if c['ctx'])
                     for (ri, c), e in zip(st['grammar']['corder'], st['expected']):
@@ -1996,6 +2176,10 @@ def run_sequences(chk: Check, info: dict, scratch: Path):
                             chk.count('S4.expected')
                         if c['cls'] == 'foreign' and c['fname'] in bound_so_far:
                             n_foreign_live += 1
+                        if c['cls'] == 'foreign' and builder and c['fname'] in types_so_far | set(st['grammar']['types']):
+                            n_type_live += 1        # names a type that this builder semantics may have resolved already
+                    if builder:
+                        types_so_far |= set(st['grammar']['types'])
                     for r in st['grammar']['rules']:
                         bound_so_far |= r['declared']
                     if rec.get('outcome', '').startswith('grammar-rejected'):
@@ -2028,6 +2212,8 @@ def run_sequences(chk: Check, info: dict, scratch: Path):
                                   {'oracle': 'S4 sequences', 'detail': detail2,
                                    'sequence': [{'grammar': s['g'], 'input': s['text'],
                                                  'semantics_safe_context': s['sem'] and s['sem']['names'],
+                                                 'semantics_kind': s['sem'] and s['sem'].get('kind', 'user'),
+                                                 'compile_asmodel': s['asmodel'],
                                                  'model': s['name'] + '#' + str(s['gid'])} for s in cand[-6:]]})
         # the same step must behave the same wherever it stands in the sequence
         for st in steps:
@@ -2048,13 +2234,16 @@ def run_sequences(chk: Check, info: dict, scratch: Path):
             n_bad += 1
     chk.count('S4.contexts_compared', n_ctx)
     chk.count('S4.foreign_names_bound_earlier', n_foreign_live)
+    chk.count('S4.type_names_resolved_by_a_builder_semantics', n_type_live)
     chk.obligation('S4:every constant of a sequence of parses is evaluated in builtins | safe_context | current AST and has its '
                    'stand-alone value; safe_builtins() and safe_context() dicts are left alone; order of parses is irrelevant',
-                   'oracle', n_bad == 0 and n_order == 0 and n_ctx >= 100 and n_foreign_live >= 15
+                   'oracle', n_bad == 0 and n_order == 0 and n_ctx >= 100 and n_foreign_live >= 12 and n_type_live >= 8
+                   and chk.dist.get('S4.tmpl.twin', 0) >= 10 and chk.dist.get('S4.tmpl.mut-read', 0) >= 10
                    and chk.dist.get('S4.step.same-model', 0) >= 10 and chk.dist.get('S4.expected', 0) >= 100,
                    f"{n_bad} problem(s), {n_order} order dependence(s) over {chk.dist.get('S4.steps', 0)} parses / "
                    f"{chk.dist.get('S4.constants', 0)} constants ({n_ctx} contexts compared, {chk.dist.get('S4.expected', 0)} values "
-                   f"with an independent expectation, {n_foreign_live} unbound names that an earlier parse had bound)")
+                   f"with an independent expectation, {n_foreign_live} unbound names that an earlier parse had bound, {n_type_live} constants "
+                   f"naming the type of a rule that a model-builder semantics had resolved)")
     chk.sample({'S4': steps[0]['g'], 'input': steps[0]['text'], 'calls': by1[steps[0]['id']].get('calls')})
 
 
@@ -2077,7 +2266,13 @@ def main():
                 'order): grammars of 1-3 rules (siblings / nested calls, a key bound between constants) over a small vocabulary of key '
                 'names incl. builtin spellings, 10 constant shapes over own keys / pure builtins / semantics functions / names bound '
                 'only elsewhere (other rule, other parse, other grammar, bootstrap grammar, walrus, detached semantics), constants and '
-                'alerts, same model re-parsed, same text recompiled, persistent safe_context() dicts; '
+                'alerts, same model re-parsed, same text recompiled, persistent safe_context() dicts; typed leaf rules '
+                '(`t::int`, `::dir`, `::Item::Word`, 12 withheld builtins + synthesized + user constructors) under the semantics TatSu '
+                'ships (ModelBuilderSemantics kept for the program / fresh / with registered constructors, compile(asmodel=True), '
+                'parse(asmodel=True), ASTSemantics) with constants that name those types; sibling rules binding one key to equal '
+                'literals of different types (1 / True / 1.0, 0 / False / 0.0 / -0.0, tuples and lists of them) read by the same '
+                'constant texts; keys bound by mutable literals ([] [0] {} {..}) filled by method calls of later constants and read '
+                'back, the containers of every returned AST edited by the caller; '
                 'every attribute name (harmless, dunder, blocked) in 52 syntactic positions of an attribute reference, 27 of them '
                 'binding positions (comprehension targets: plain, tuple / list / starred / nested patterns, second clause, inside '
                 'f-string fields and format specs, under subscripts), on a context with objects that have writable attributes and '
@@ -2090,7 +2285,8 @@ def main():
                     'ast.parse -> rose tree conversion (harness/props/c17.py:to_tree); the scan_for_exceptions oracle has_exc',
                     'S4: the expected value of a templated constant is computed by the harness (python len/max/min/sorted/str.upper on the '
                     'texts of the keys; ast.literal_eval for the final text; a text that could be an evaluable expression gets no expectation); '
-                    'ParserEngine.constant / engine.is_eval_safe / engine.safe_eval are wrapped to record the AST keys and the context',
+                    'ParserEngine.constant / engine.is_eval_safe / engine.safe_eval are wrapped to record the AST keys and the context; '
+                    'S3 records literal_eval by replacing ast.literal_eval for the time of a parse',
                     'dunder-state snapshot of the objects reachable from a context (harness/props/c17.py: reachable / own_state: class, '
                     'identity and dunder entries of __dict__, function __defaults__/__kwdefaults__/__code__/__name__/...), depth 3; '
                     'alert messages are read from parseinfo.alerts of the result of model.parse(..., parseinfo=True) (S3) and from a '
